@@ -86,6 +86,10 @@ def k_bw_outer(x, y):
     return x[:, None] * y[None, :]
 
 
+def k_add_offset(x, offset=0):
+    return x + offset
+
+
 def k_block_submax(x):
     """Block-local: the result depends on where the block boundaries are (what a grid-sensitive consumer looks like)."""
     x = np.asarray(x)
